@@ -57,9 +57,64 @@ func valueOf(raw json.RawMessage) any {
 	return nil
 }
 
+// sim evaluates the randomly grown programs of C10_Sim: [id, ast, text].
+func sim(casesPath, obsPath string) {
+	type simRec struct {
+		ID   string          `json:"id"`
+		Ast  json.RawMessage `json:"ast"`
+		Text string          `json:"text"`
+	}
+	var cases []simRec
+	if err := lib.ReadNDJSON(casesPath, func(b []byte) error {
+		var g simRec
+		if err := json.Unmarshal(b, &g); err != nil {
+			return err
+		}
+		g.Ast = append(json.RawMessage{}, g.Ast...)
+		cases = append(cases, g)
+		return nil
+	}); err != nil {
+		lib.Fatal("%v", err)
+	}
+	mr1, mr4 := lib.LoadModelResource("MR1"), lib.LoadModelResource("MR4")
+	forest, err := lib.NewForest(mr1, mr4)
+	if err != nil {
+		lib.Fatal("%v", err)
+	}
+	w, err := lib.NewWriter(obsPath)
+	if err != nil {
+		lib.Fatal("%v", err)
+	}
+	lib.ParallelMap(len(cases), runtime.NumCPU(), func(i int) {
+		g := cases[i]
+		colls := map[string]system.Collection{
+			"ints":  {system.Integer(1), system.Integer(2), system.Integer(2), system.Integer(3)},
+			"mixed": {system.Integer(1), system.String("a"), system.MustParseDecimal("1.0"), system.Integer(2), system.String("a")},
+			"none":  {},
+			"looks": {system.Integer(1), system.String("1"), system.Boolean(true), system.String("true"), system.MustParseDecimal("1.0"), system.String("1.0"), system.Integer(1)},
+		}
+		opts := []fhirpath.EvaluateOption{}
+		for name, c := range colls {
+			opts = append(opts, evalopts.EnvVariable(name, c))
+		}
+		snap := lib.TakeSnapshot([]proto.Message{mr1, mr4}, colls)
+		out := lib.EvalOutcome(forest, g.Text, lib.AsResources(mr1), nil, opts)
+		if err := w.Write(map[string]any{"id": g.ID, "ast": g.Ast, "src": g.Text, "out": out, "kind": "sim", "mut": snap.Report()}); err != nil {
+			lib.Fatal("%v", err)
+		}
+	})
+	if err := w.Close(); err != nil {
+		lib.Fatal("%v", err)
+	}
+}
+
 func main() {
+	if len(os.Args) == 4 && os.Args[1] == "sim" {
+		sim(os.Args[2], os.Args[3])
+		return
+	}
 	if len(os.Args) != 4 || os.Args[1] != "run" {
-		lib.Fatal("usage: c10 run cases.ndjson obs.ndjson")
+		lib.Fatal("usage: c10 run|sim cases.ndjson obs.ndjson")
 	}
 	var cases []genRec
 	if err := lib.ReadNDJSON(os.Args[2], func(b []byte) error {
@@ -83,6 +138,7 @@ func main() {
 			evalopts.EnvVariable("ints", system.Collection{system.Integer(1), system.Integer(2), system.Integer(2), system.Integer(3)}),
 			evalopts.EnvVariable("mixed", system.Collection{system.Integer(1), system.String("a"), system.MustParseDecimal("1.0"), system.Integer(2), system.String("a")}),
 			evalopts.EnvVariable("none", system.Collection{}),
+			evalopts.EnvVariable("looks", system.Collection{system.Integer(1), system.String("1"), system.Boolean(true), system.String("true"), system.MustParseDecimal("1.0"), system.String("1.0"), system.Integer(1)}),
 		}
 	}
 	focusItems := func(txt string, res proto.Message) system.Collection {
@@ -106,6 +162,7 @@ func main() {
 			"ints":  {system.Integer(1), system.Integer(2), system.Integer(2), system.Integer(3)},
 			"mixed": {system.Integer(1), system.String("a"), system.MustParseDecimal("1.0"), system.Integer(2), system.String("a")},
 			"none":  {},
+			"looks": {system.Integer(1), system.String("1"), system.Boolean(true), system.String("true"), system.MustParseDecimal("1.0"), system.String("1.0"), system.Integer(1)},
 		}
 		if len(g.Dspec) > 0 || containsVar(g.Text, "%d") {
 			c1 := focusItems(g.Ftxt, mr1)
